@@ -1017,11 +1017,52 @@ def repeating_index_accumulations(fn_node: ast.FunctionDef):
     return out
 
 
+_MUTATORS = ("append", "extend", "insert", "pop", "remove", "clear", "update", "setdefault", "popitem", "add", "discard", "sort", "reverse")
+
+
+def class_level_container_mutations(fi):
+    """(node, attribute, definition) for every in-place modification, through `self`, of a mutable container that is
+    created in the class body (`cache = {}`) and never re-bound on the instance by any method of the class."""
+    cls = getattr(fi, "cls", None)
+    if cls is None:
+        return []
+    shared = {}
+    for st in cls.node.body:
+        tgt = val = None
+        if isinstance(st, ast.Assign) and len(st.targets) == 1 and isinstance(st.targets[0], ast.Name):
+            tgt, val = st.targets[0].id, st.value
+        elif isinstance(st, ast.AnnAssign) and isinstance(st.target, ast.Name) and st.value is not None:
+            tgt, val = st.target.id, st.value
+        if tgt is None:
+            continue
+        mutable = isinstance(val, (ast.Dict, ast.List, ast.Set, ast.ListComp, ast.DictComp, ast.SetComp)) or \
+            (isinstance(val, ast.Call) and isinstance(val.func, ast.Name) and val.func.id in ("dict", "list", "set", "defaultdict", "OrderedDict", "deque", "bytearray"))
+        if mutable:
+            shared[tgt] = val
+    if not shared:
+        return []
+    for m in cls.methods.values():
+        for x in ast.walk(m.node):
+            if isinstance(x, ast.Attribute) and isinstance(x.ctx, ast.Store) and isinstance(x.value, ast.Name) and x.value.id == "self":
+                shared.pop(x.attr, None)
+    out = []
+    for x in ast.walk(fi.node):
+        a = None
+        if isinstance(x, ast.Subscript) and isinstance(x.ctx, (ast.Store, ast.Del)) and isinstance(x.value, ast.Attribute):
+            a = x.value
+        elif isinstance(x, ast.Call) and isinstance(x.func, ast.Attribute) and x.func.attr in _MUTATORS and isinstance(x.func.value, ast.Attribute):
+            a = x.func.value
+        if a is not None and isinstance(a.value, ast.Name) and a.value.id == "self" and a.attr in shared:
+            out.append((x, a.attr, shared[a.attr]))
+    return out
+
+
 def numpy_contract_pack(ctx, R, rule: str, funcs, what: str):
     """Construct-level numpy / Python contracts checked in the functions a property lives in: a violation of one of them
     is a defect wherever it stands; it is reported under the property whose code contains it.
       lost store through chained advanced indexing, accumulation through a repeating index array, a mutated mutable
-      default argument, a matrix rebuilt from `eigh` with the eigenvectors as rows."""
+      default argument, a matrix rebuilt from `eigh` with the eigenvectors as rows, a class-level container modified through
+      an instance."""
     n = 0
     seen = set()
     for fi in funcs:
@@ -1044,6 +1085,10 @@ def numpy_contract_pack(ctx, R, rule: str, funcs, what: str):
         for (node, why) in eigh_reconstruction_errors(fi.node):
             R.check(rule, "a matrix rebuilt from its eigendecomposition is V diag(w) V^T", False, fi, node,
                     msg=f"{fi.short}: `{ast.unparse(node)[:70]}`: {why} -- {what}", key=f"contract:eigh-rows:{fi.short}")
+        for (node, attr, d) in class_level_container_mutations(fi):
+            R.check(rule, "no class-level container is modified through an instance", False, fi, node,
+                    msg=f"{fi.short}: `{ast.unparse(node)[:60]}` modifies `{attr} = {ast.unparse(d)[:20]}`, which is defined in the class body and never re-bound per instance: one object shared by "
+                        f"every instance in the process, so a second sampler reads what the first one left there -- {what}", key=f"contract:class-level-container:{fi.short}:{attr}")
     R.check(rule, "numpy / Python construct contracts hold in the property's functions", True, None, None, key="contract-scan")
     R.analysed[f"{rule}:functions scanned for construct contracts"] = n
 
